@@ -18,6 +18,9 @@ pub enum SatOp {
     Add(Vec<i8>),
     Reserve(u8),
     Solve(Vec<i8>),
+    /// re-adds the clauses added so far, cyclically, (k+1)*4096 times: the semantics is unchanged but the
+    /// clause count and the DIMACS text grow by orders of magnitude (beyond internal buffer capacities)
+    Bulk(u8),
 }
 
 #[derive(Clone, Debug, Serialize, Deserialize)]
@@ -51,13 +54,19 @@ fn lit(maxv: i8) -> impl Strategy<Value = i8> {
 
 fn op() -> impl Strategy<Value = SatOp> {
     prop_oneof![
-        50 => vec(lit(MAX_VAR), 1..=4).prop_map(SatOp::Add),
+        44 => vec(lit(MAX_VAR), 1..=4).prop_map(SatOp::Add),
+        6 => vec(lit(MAX_VAR), 5..=9).prop_map(SatOp::Add),
         6 => vec(lit(4), 1..=2).prop_map(SatOp::Add),
         1 => Just(SatOp::Add(vec![])),
         5 => (0u8..=16).prop_map(SatOp::Reserve),
         12 => vec(lit(MAX_ASSUMED_VAR), 0..=4).prop_map(SatOp::Solve),
         6 => Just(SatOp::Solve(vec![])),
     ]
+}
+
+/// the rare heavy operation is drawn separately so that most sequences stay cheap
+fn op_with_bulk() -> impl Strategy<Value = SatOp> {
+    prop_oneof![400 => op(), 1 => (0u8..40).prop_map(SatOp::Bulk)]
 }
 
 /// Structured prefixes: pigeonhole 3 into 2, implication chain.
@@ -127,6 +136,19 @@ fn run_backend(name: &str, backend: &Backend, case: &SatCase, rec: &mut Rec, fak
                     declared = declared.max(l.unsigned_abs() as usize);
                 }
                 clauses.push(c.clone());
+            }
+            SatOp::Bulk(k) => {
+                let base: Vec<Vec<i8>> = if clauses.is_empty() { vec![vec![1, -2]] } else { clauses.clone() };
+                let total = (*k as usize % 40 + 1) * 4096;
+                for i in 0..total {
+                    let c = &base[i % base.len()];
+                    let cl: Vec<Literal> = c.iter().map(|l| Literal::from(mapl(*l, stride))).collect();
+                    guard(|| s.add_clause(cl)).map_err(|p| Failure::new(format!("{}/add_clause-panic", sigp), p))?;
+                }
+                if clauses.is_empty() {
+                    clauses.push(vec![1, -2]);
+                    declared = declared.max(2);
+                }
             }
             SatOp::Reserve(r) => {
                 let rr = *r as usize;
@@ -239,14 +261,14 @@ impl Prop for SatObj {
         "C15"
     }
     fn rule(&self) -> String {
-        "Sequences of add_clause (0-4 literals over 12 abstract variables, mapped to solver variables (v-1)*stride+1 with stride in {1,3,16,63,64,65,128} so that variable numbers up to ~1800 and all residues occur, repeated/complementary literals, the empty clause), reserve(k), solve and solve_under_assumptions (0-4 literals over 14 variables, i.e. also never-seen and only-reserved ones, possibly contradictory), optionally after a structured prefix (pigeonhole 3/2, implication chain), run on CadicalSolver, ExternalSatSolver(fake_sat, strict DIMACS validation) and ExternalSatSolver(kissat -q) when installed. Every verdict is compared with brute force over the accumulated clauses and that call's assumptions; models must satisfy every clause and assumption by definite values and be queryable for every declared/assumed variable. Non-trivial: >=2 solve calls with a clause added in between and a call whose assumptions flip the verdict; distinct = operation sequence.".into()
+        "Sequences (up to 24 operations, one in ten up to 144; thorough 60/360) of add_clause (0-9 literals, repeated and complementary literals inside a clause, over 12 abstract variables, mapped to solver variables (v-1)*stride+1 with stride in {1,3,16,63,64,65,128} so that variable numbers up to ~1800 and all residues occur, repeated/complementary literals, the empty clause), reserve(k) (also after solve calls and below the current count), a rare bulk operation that re-adds the current clauses 4096-163840 times (DIMACS text up to several MiB, semantics unchanged), solve and solve_under_assumptions (0-4 literals over 14 variables, i.e. also never-seen and only-reserved ones, possibly contradictory), optionally after a structured prefix (pigeonhole 3/2, implication chain), run on CadicalSolver, ExternalSatSolver(fake_sat, strict DIMACS validation) and ExternalSatSolver(kissat -q) when installed. Every verdict is compared with brute force over the accumulated clauses and that call's assumptions; models must satisfy every clause and assumption by definite values and be queryable for every declared/assumed variable. Non-trivial: >=2 solve calls with a clause added in between and a call whose assumptions flip the verdict; distinct = operation sequence.".into()
     }
     fn assumptions(&self) -> Vec<String> {
         vec!["brute force over <=2^14 assignments".into(), "fake_sat / kissat are healthy backends".into()]
     }
     fn strategy(&self, tier: Tier) -> BoxedStrategy<SatCase> {
         let maxlen = tier.pick(24usize, 60usize);
-        (structured(), vec(op(), 1..=maxlen), prop_oneof![5 => Just(1u8), 1 => Just(3u8), 1 => Just(16u8), 1 => Just(63u8), 2 => Just(64u8), 1 => Just(65u8), 1 => Just(128u8)])
+        (structured(), prop_oneof![9 => vec(op_with_bulk(), 1..=maxlen), 1 => vec(op_with_bulk(), maxlen..=6 * maxlen)], prop_oneof![5 => Just(1u8), 1 => Just(3u8), 1 => Just(16u8), 1 => Just(63u8), 2 => Just(64u8), 1 => Just(65u8), 1 => Just(128u8)])
             .prop_map(|(mut pre, ops, stride)| {
                 pre.extend(ops);
                 pre.push(SatOp::Solve(vec![]));
@@ -255,7 +277,7 @@ impl Prop for SatObj {
             .boxed()
     }
     fn n_cases(&self, tier: Tier) -> u32 {
-        tier.pick(6_000, 150_000)
+        tier.pick(5_000, 120_000)
     }
     fn extra_phase(&self, tier: Tier, seed: u64, rec: &mut Rec) -> Result<(), (SatCase, Failure)> {
         let seeds: Vec<Vec<u8>> = (0..8u8).map(|k| (0..96u8).map(|i| i.wrapping_mul(29).wrapping_add(k.wrapping_mul(7))).collect()).collect();
@@ -294,6 +316,12 @@ impl Prop for SatObj {
                     added_since = true;
                 }
                 SatOp::Reserve(_) => {}
+                SatOp::Bulk(_) => {
+                    if clauses.is_empty() {
+                        clauses.push(vec![1, -2]);
+                    }
+                    rec.class("bulk-clauses");
+                }
                 SatOp::Solve(a) => {
                     if solves >= 1 && added_since {
                         add_between = true;
